@@ -68,9 +68,12 @@ class RegistryServer(object):
 
     def _remove_service(self, name, addrinfo):
         """removes a single server of the given service"""
+        was_member = addrinfo in self.services[name]
         self.services[name].pop(addrinfo, None)
         if not self.services[name]:
             del self.services[name]
+        if not was_member:
+            return
         try:
             self.on_service_removed(name, addrinfo)
         except Exception:
